@@ -6,7 +6,7 @@ import sys
 pid, caught = sys.argv[1], sys.argv[2]
 ran = " ".join(sys.argv[3:])
 import os as _o
-src = _o.environ.get("SEEDBASE", "/tmp/seed8") + f"/out-{pid}"
+src = _o.environ.get("SEEDBASE", "/tmp/seed9") + f"/out-{pid}"
 name = pid if not os.path.isdir(f"/verif/seeded/{pid}") else None
 k = 2
 while name is None:
